@@ -9,8 +9,15 @@
      method  request method
      text, data, media   byte length of that body source, -1 = not set
      stream  "none" | "iter" (iterable with close()) | "file" (file-like with close()) |
-             "plain" (iterable without close());  chunks = lengths of the blocks it produces
-     sse     number of events of the SSE emitter, -1 = none (ASGI only)
+             "plain" (iterable without close());  chunks = what it produces, in order: the length
+             of a block of bytes (0 = an empty block; for a file-like stream an empty block *is*
+             the end, so 0 does not occur there) or -1 = None.  None is an ASGI matter: a file-like
+             stream's read() may return None for "no data yet" (an empty body block is sent and
+             reading goes on); an async iterator / generator producing None says "the end"
+             (documented), nothing after it is asked for.  On WSGI every block must be bytes.
+     sse     number of items of the SSE emitter, -1 = none (ASGI only);  sk = its script, one entry
+             per item: 1 = an event, 0 = None (a keep-alive ping: the framework sends a comment
+             event of its own in its place)
      cl      Content-Length set by the application, -1 = none;  ct  TRUE iff it set Content-Type
      fk, fa  fault: "none" | "stream" (the stream/emitter raises on its fa-th read, 0-based) |
              "send" (the server's fa-th send raises; send 0 is the response start, so on WSGI,
@@ -61,6 +68,12 @@ Chosen(c) == IF IsAsgi(c) /\ c.sse >= 0 THEN "sse"
              ELSE IF c.stream # "none" THEN "stream"
              ELSE "none"
 Streamed(c)      == Chosen(c) \in {"stream", "sse"}
+(* an async iterator / generator ends at its first None *)
+NoneEnds(c)      == IsAsgi(c) /\ c.stream \in {"iter", "plain"}
+RECURSIVE UpToNone(_)
+UpToNone(l)      == IF l = <<>> \/ Head(l) = -1 THEN <<>> ELSE <<Head(l)>> \o UpToNone(Tail(l))
+LiveChunks(c)    == IF NoneEnds(c) THEN UpToNone(c.chunks) ELSE c.chunks      \* the blocks that are sent
+SsePiece(c, i)   == <<IF c.sk[i + 1] = 1 THEN "sse" ELSE "ping", i>>
 MediaRendered(c) == c.text < 0 /\ c.data < 0 /\ c.media >= 0      \* rendering ignores stream / sse
 RenderedLen(c)   == IF c.err >= 0 THEN c.err ELSE IF c.text >= 0 THEN c.text ELSE IF c.data >= 0 THEN c.data ELSE c.media   \* -1: nothing rendered
 HasClose(c)      == c.stream \in {"iter", "file"}
@@ -133,8 +146,8 @@ StreamPieces(src, lens, i) ==
 (* the pieces the property's precedence rule prescribes for a complete response *)
 ExpectedPieces(c) ==
     IF Bodiless(c) THEN <<>>
-    ELSE CASE Chosen(c) = "sse"    -> StreamPieces("sse", [i \in 1..c.sse |-> 1], 0)
-           [] Chosen(c) = "stream" -> StreamPieces("stream", c.chunks, 0)
+    ELSE CASE Chosen(c) = "sse"    -> [i \in 1..c.sse |-> SsePiece(c, i - 1)]
+           [] Chosen(c) = "stream" -> StreamPieces("stream", LiveChunks(c), 0)
            [] Chosen(c) = "none"   -> <<>>
            [] OTHER                -> IF RenderedLen(c) > 0 THEN <<<<Chosen(c), 0>>>> ELSE <<>>
 IsPrefixOf(s, t) == Len(s) <= Len(t) /\ SubSeq(t, 1, Len(s)) = s
@@ -232,7 +245,7 @@ StreamRead ==
     /\ IF c.fk = "stream" /\ c.fa = k
        THEN raised' = TRUE /\ pc' = "fault" /\ UNCHANGED <<ev, k, hand>>
        ELSE /\ raised' = raised
-            /\ IF k < Len(c.chunks)
+            /\ IF k < Len(c.chunks) /\ ~(NoneEnds(c) /\ c.chunks[k + 1] = -1)
                THEN hand' = k /\ k' = k + 1 /\ pc' = "chunk" /\ ev' = ev
                ELSE /\ pc' = "exhausted" /\ UNCHANGED <<k, hand>>
                     /\ ev' = IF IsAsgi(c) THEN ev ELSE Append(ev, EofEvt)   \* the server sees StopIteration
@@ -240,7 +253,7 @@ StreamRead ==
 
 StreamSendChunk ==
     /\ pc = "chunk"
-    /\ Send(BodyEvt(c.chunks[hand + 1], TRUE, "stream", hand), "read", "fault")
+    /\ Send(BodyEvt(IF c.chunks[hand + 1] < 0 THEN 0 ELSE c.chunks[hand + 1], TRUE, "stream", hand), "read", "fault")
     /\ hand' = -1
     /\ UNCHANGED <<c0, c, k, begun, closes, raised>>
 
@@ -271,7 +284,7 @@ SseNext ==
     /\ UNCHANGED <<c0, c, ev, sends, begun, closes, sendFailed>>
 SseSend ==
     /\ pc = "ssechunk"
-    /\ Send(BodyEvt(1, TRUE, "sse", hand), "sse", "done")
+    /\ Send(BodyEvt(1, TRUE, SsePiece(c, hand)[1], hand), "sse", "done")
     /\ hand' = -1
     /\ UNCHANGED <<c0, c, k, begun, closes, raised>>
 
